@@ -153,6 +153,9 @@ func c13Timeout(op map[string]interface{}) time.Duration {
 	if ms, err := strconv.Atoi(os.Getenv("C13_TIMEOUT_MS")); err == nil && ms > 0 {
 		return time.Duration(ms) * time.Millisecond // self-test / debugging only
 	}
+	if c13Str(op["lat"]) == "pingpong" {
+		return 150 * time.Second // ~3 s of work; one element at a time through busy-waiting goroutines starves under load
+	}
 	if c13OpLen(op) > 20000 {
 		return 60 * time.Second
 	}
@@ -1357,7 +1360,11 @@ func C13Gen(r *Run) {
 			g.dual(big(), rng.Intn(4), Pick(rng, c13Lats), p)
 			g.queue(big(), Pick(rng, c13Lats), p)
 			if p >= 4 {
-				g.queue(150000, "pingpong", p)
+				// several short cases rather than one long one: ~3 s each on a quiet machine, and the
+				// machine may be loaded (the queue's output side busy-waits: a starved run crawls)
+				for k := 0; k < 4; k++ {
+					g.queue(30000, "pingpong", p)
+				}
 			}
 		}
 	} else {
